@@ -56,12 +56,38 @@ def programs(tier, seed):
     progs = []
     for k, (fam, D) in enumerate(ds):
         progs.append({"id": f"{fam}#{k}", "D": D, "style": "gen" if k % 3 == 0 else "proc"})
+    # parameterised generators: names made from parameter values (readable form, and md5 of JSON for nested / long / ambiguous values), with unrelated
+    # earlier calls in the same process that use equal values written differently
+    twins = {1: [1.0], 4: [4.0], 2.5: [2.5], 0: [0.0, -0.0]}
+    sizes = [{"w": 1}, {"w": 4, "nf": 2}, {"w": 2.5, "tag": "a b"}, {"w": 1, "tag": "x" * 130}, {"w": 0, "inner": {"x": 2}}, {"w": 1, "p": ["1000", -3]},
+             {"w": 4, "p": ["1", 3], "fl": "B"}, {"w": 1, "inner": {"x": 1, "y": "q r"}, "nf": 3}]
+    ptwins = {("1000", -3): ["1", 0], ("1", 3): ["1000", 0]}
+    plains = [{"a": 1}, {"a": 2, "s": "y"}, {"a": 1, "s": "x b=y"}, {"a": 3, "s": "z" * 125}]
+    npg = 12 if tier == "quick" else 60
+    for k in range(npg):
+        calls, earlier = [], []
+        for _ in range(rnd.randint(2, 4)):
+            r = rnd.random()
+            if r < 0.6:
+                kw = rnd.choice(sizes)
+                calls.append({"g": "RcStage", "kw": kw})
+                for t in twins[kw["w"]]:
+                    e = dict(kw, w=t)
+                    if "p" in e:
+                        e["p"] = ptwins[tuple(e["p"])]
+                    earlier.append(e)
+            elif r < 0.8:
+                calls.append({"g": "Leaf", "kw": rnd.choice(plains)})
+            else:
+                calls.append({"g": "Wrap", "kw": rnd.choice(plains), "n": rnd.randint(1, 3)})
+        progs.append({"id": f"pgen#{len(progs)}", "kind": "pgen", "calls": calls, "earlier": earlier})
     return progs
 
 
 def run(tier, seed, replay_file=None):
     o = Outcome(PID, tier, seed, level="exploration")
-    o.rule = ("programs: multi-port bundle designs + a seeded sample of every universe family, built procedurally or inside generators; each run in N fresh "
+    o.rule = ("programs: multi-port bundle designs + a seeded sample of every universe family, built procedurally or inside generators, + chains of parameterised "
+              "generator calls (names from parameter values: readable and md5 forms; earlier calls in the same process with equal values written differently); each run in N fresh "
               "interpreters (quick 8, thorough 32) with PYTHONHASHSEED = 0..N-1 (and one 'random'), shuffled program order, seeded junk allocation and "
               "unrelated elaboration; non-trivial = the program exported (4 outputs); distinct by program. The configuration space is sampled, not exhausted.")
     o.trusted_base = ["harness/repro_worker.py, harness/props/c12.py (digests of SerializeToString(deterministic=True) and of netlist text)", "TLC"]
@@ -125,6 +151,6 @@ def run(tier, seed, replay_file=None):
             fam = pidk.split("#")[0]
             o.violations.append(Violation(clause="output_differs_between_processes", case={"programs": [byprog[pidk]] if pidk in byprog else [], "key": key, "hashseed": envs[tid][0]},
                                           features=["fam_" + fam, "format_" + key.split("|")[-1]], detail={"values": sorted(vals.get(key, []))}))
-    o.required_cover = ["fam_multi_port", "fam_U_bundle", "fam_U_pref", "fam_U_hier", "environments"]
+    o.required_cover = ["fam_multi_port", "fam_U_bundle", "fam_U_pref", "fam_U_hier", "fam_pgen", "environments"]
     o.samples = [{"program": progs[0]["id"], "outputs": [x for x in traces[0] if x["key"].startswith(progs[0]["id"] + "|")]}]
     return o
